@@ -5,7 +5,7 @@ use std::alloc::{GlobalAlloc, Layout, System};
 use std::cell::RefCell;
 use std::sync::atomic::{AtomicUsize, Ordering};
 
-#[derive(Clone, Debug, Default)]
+#[derive(Clone, Debug, Default, serde::Serialize, serde::Deserialize)]
 pub struct PanicInfo {
     pub file: String,
     pub line: u32,
@@ -69,6 +69,7 @@ thread_local! {
 pub fn set_context(step: u64, what: &'static str) {
     CONTEXT.with(|c| *c.borrow_mut() = (step, what));
     SUBCONTEXT.with(|c| c.borrow_mut().clear());
+    crate::run::publish_context(what);
 }
 
 pub fn set_subcontext(s: &str) {
@@ -77,7 +78,26 @@ pub fn set_subcontext(s: &str) {
         b.clear();
         b.push_str(s);
     });
+    {
+        let (_, what) = CONTEXT.with(|c| *c.borrow());
+        let mut full = String::with_capacity(what.len() + 1 + s.len());
+        full.push_str(what);
+        full.push('/');
+        full.push_str(s);
+        crate::run::publish_context(&full);
+    }
+    // also keep a copy where the allocator can reach it without allocating (workers are single-threaded)
+    unsafe {
+        let n = s.len().min(CTX_CAP);
+        let dst = std::ptr::addr_of_mut!(CTX_BUF) as *mut u8;
+        std::ptr::copy_nonoverlapping(s.as_ptr(), dst, n);
+        CTX_LEN.store(n, Ordering::Relaxed);
+    }
 }
+
+const CTX_CAP: usize = 200;
+static mut CTX_BUF: [u8; CTX_CAP] = [0; CTX_CAP];
+static CTX_LEN: AtomicUsize = AtomicUsize::new(0);
 
 pub fn install_panic_hook() {
     std::panic::set_hook(Box::new(|info| {
@@ -134,10 +154,41 @@ static METER_ON: AtomicUsize = AtomicUsize::new(0);
 
 fn cap_exceeded(kind: &str, size: usize) -> ! {
     // deterministic marker the orchestrator looks for; then die without unwinding
-    let msg = format!("\nALLOC-CAP {kind} {size}\n");
+    // no allocation allowed here: assemble the message in a stack buffer
+    let mut buf = [0u8; 320];
+    let mut n = 0usize;
+    let mut put = |b: &[u8]| {
+        for x in b {
+            if n < buf.len() {
+                buf[n] = *x;
+                n += 1;
+            }
+        }
+    };
+    put(b"\nALLOC-CAP ");
+    put(kind.as_bytes());
+    put(b" ");
+    let mut digits = [0u8; 20];
+    let mut i = 20;
+    let mut v = size;
+    loop {
+        i -= 1;
+        digits[i] = b'0' + (v % 10) as u8;
+        v /= 10;
+        if v == 0 {
+            break;
+        }
+    }
+    put(&digits[i..]);
+    put(b" ctx=");
     unsafe {
-        libc::write(2, msg.as_ptr() as *const libc::c_void, msg.len());
-        libc::write(1, msg.as_ptr() as *const libc::c_void, msg.len());
+        let len = CTX_LEN.load(Ordering::Relaxed).min(CTX_CAP);
+        let src = std::ptr::addr_of!(CTX_BUF) as *const u8;
+        put(std::slice::from_raw_parts(src, len));
+    }
+    put(b"\n");
+    unsafe {
+        libc::write(1, buf.as_ptr() as *const libc::c_void, n);
         libc::_exit(97);
     }
 }
